@@ -460,6 +460,8 @@ def op_add_ole(run):
     if run.rnd.random() < 0.4:
         kw["icon_file"] = f["img1"]
     g = geom(run)
+    if run.rnd.random() < 0.4:
+        kw.update(run.rnd.choice([{"icon_width": g[2] or 965200, "icon_height": g[3] or 609600}, {"width": g[2] or 965200, "height": g[3] or 609600}]))
     gf = shapes.add_ole_object(f["ole"], prog, g[0], g[1], **kw)
     remember_shape(run, s, gf)
     run.acc.hit("add_ole_object")
